@@ -205,6 +205,21 @@ CHECKS["C15"] = dict(
                        "this is the thinnest kind of claim: necessary structural conditions shared with C02, C03, C06.",
 )
 
+CHECKS["C20"] = dict(
+    level="other",
+    technique="static analysis: ast -> sympy term extraction + CAS identities for the six integrands (modulus and phase of the analytically "
+              "continued log argument), structural comparison of the two piecewise wrappers, def-use rules for the thermal sum, and a lint "
+              "of the shipped table files as data artefacts (parsed, never evaluated through WallGo)",
+    text="Integrands equal the defining ones for every argument: y^2 log(1 -/+ e^(-sqrt(y^2+x))) with Jf's overall sign; for x + y^2 < 0 the "
+         "log argument's modulus is |1 -/+ e^(-ia)| and the imaginary integrand its phase; both wrappers split at sqrt|x| with the same "
+         "limits and use their own class's integrands; the thermal sum is T^4/(2 pi^2)[sum n_B Re Jb + sum n_F Re Jf] with m^2/T^2 "
+         "arguments, jCW has the standard form and fermions the opposite sign. The shipped tables are linted row by row: layout, "
+         "uniform increasing abscissae on [-20, 1000], finiteness, zero imaginary part for x >= 0, cubic-prediction residuals "
+         "(resolution 2e-4 on the real part), value at 0 and large-x asymptote; ini file, file names and reader agree.",
+    note=COMMON_NOTE + " Values returned by quad, table accuracy between rows and continuity in the masses are not decided; a table "
+                       "corruption below 2e-4 in a smooth region is not seen.",
+)
+
 NOT_APPLICABLE = {}
 
 ENGINES = [
